@@ -154,6 +154,12 @@ def run_ident(spec, ctx):
             rso.E(z)[1:] == np.full(3, 0.5))
     fset.probset(m.p == p)
     _declare(x, part, spec['order'], labels, rng)
+    # a second decision with its own partition, declared last (it plays no role)
+    other = PARTS[n][spec['seed'] % len(PARTS[n])]
+    x_other = m.dvar(1)
+    _declare(x_other, other, list(range(len(other))), labels, rng)
+    if spec['seed'] % 3 == 0:
+        x_other.adapt(z[3])
     mask = np.array(spec['mask'])
     affine = spec['affine'] and mask.any()
     if affine:
@@ -172,6 +178,7 @@ def run_ident(spec, ctx):
         for i in range(k):
             m.st(x[i] <= z[0] + c @ z[1:])
     m.st(x <= 50, x >= -50)
+    m.st(x_other <= 1, x_other >= 0)
     try:
         C.solve(m, 'def')
     except Exception as e:
@@ -293,6 +300,7 @@ def run_struct(spec, ctx):
                                            'scenarios of one event use different solver columns',
                                            'entry': i, 'scenarios': [s1, s2], 'partition': part})
             # z-coefficient pattern
+            coef_cols = {}
             for s in range(sp['S']):
                 dr = rules[s]
                 mask = np.array(v['mask']) if v['mask'] is not None else np.zeros((v['n'], nz), int)
@@ -310,11 +318,33 @@ def run_struct(spec, ctx):
                         detail.append({'what': 'z-coefficient pattern of a dro decision differs '
                                        'from the declared mask', 'scenario': s,
                                        'declared': mask.tolist(), 'observed': pat.tolist()})
+                    coef_cols.setdefault(s, {})
+                    for i in range(x.size):
+                        for j in range(min(nz, nr)):
+                            rowm = ra.linear[(x.first + i) * nr + j]
+                            coef_cols[s][(i, j)] = frozenset(
+                                rowm.indices[rowm.data != 0].tolist())
                     if 0 < mask.sum() < mask.size:
                         nontriv = True
                 elif mask.any():
                     detail.append({'what': 'declared affine adaptation is missing',
                                    'scenario': s})
+            # coefficient variables are shared by two scenarios iff they are in one event
+            for s1 in coef_cols:
+                for s2 in coef_cols:
+                    if s1 >= s2:
+                        continue
+                    same_event = DR.event_of(part, s1) == DR.event_of(part, s2)
+                    for key, c1 in coef_cols[s1].items():
+                        c2 = coef_cols[s2].get(key)
+                        if not c1 and not c2:
+                            continue
+                        ctx.count('struct_entries_checked')
+                        if (c1 == c2) != same_event:
+                            detail.append({'what': 'rule coefficients shared across events' if
+                                           c1 == c2 else 'rule coefficients differ inside one '
+                                           'event', 'entry': list(key), 'scenarios': [s1, s2],
+                                           'partition': part})
         feats = {'mode': 'struct', 'front': 'dro', 'S': sp['S'],
                  'partitions': sorted({len(v['partition']) for v in sp['xvars']}),
                  'affine': sorted({v['mask'] is not None for v in sp['xvars']})}
